@@ -144,7 +144,12 @@ def build_queries(rng, tabs, tier):
     for n, t in real:
         add(n, 'exact', t)
     for n, t in real:
-        for kind, v in near_misses(n):
+        nm = near_misses(n)
+        if t == 'mass' and tier == 'quick':
+            # quick tier: all variants for the 371 + 118 scattering / element names, 5 of the ~15 variants
+            # (seeded choice) for each of the 3557 isotope-mass names; thorough tier: all variants of all names
+            nm = rng.sample(nm, 5)
+        for kind, v in nm:
             add(v, kind, n)
     uni_src = [n for n, _ in real]
     rng.shuffle(uni_src)
@@ -188,31 +193,28 @@ def obs_term(o):
             f'"{o["dtype"]}"))')
 
 
-def case_terms(name, res, is_ascii):
-    """-> list of (api, term)"""
-    out = []
+def case_term(name, res, is_ascii):
+    """one Coq term `L name ascii <scat obs> <atom obs> <elem obs>`"""
     a = 'true' if is_ascii else 'false'
-    if 'scat' in res:
-        r = res['scat']
-        if 'ok' in r:
-            t = f'(SOk {cstr(r["ok"]["isotope"])} [' + '; '.join(obs_term(f) for f in r['ok']['fields']) + '])'
-        else:
-            t = f'(SErr "{r["err"]}")'
-        out.append(('scat', f'(CScat {cstr(name)} {a} {t})'))
-    if 'atom' in res:
-        r = res['atom']
-        if 'ok' in r:
-            z = r['ok']['z']
-            if not isinstance(z, int) or isinstance(z, bool):
-                raise ValueError(f'z is not an int: {z!r}')
-            t = f'(AOk {cstr(r["ok"]["isotope"])} ({z})%Z {obs_term(r["ok"]["weight"])} {obs_term(r["ok"]["mass"])})'
-        else:
-            t = f'(AErr "{r["err"]}")'
-        out.append(('atom', f'(CAtom {cstr(name)} {a} {t})'))
-    if 'elem' in res and is_ascii and 'unavailable' not in res['elem'] and 'err' not in res['elem']:
-        g = res['elem']['group']
-        out.append(('elem', f'(CElem {cstr(name)} ' + ('None' if g is None else f'(Some {cstr(g)})') + ')'))
-    return out
+    r = res['scat']
+    if 'ok' in r:
+        st = f'(SOk {cstr(r["ok"]["isotope"])} [' + '; '.join(obs_term(f) for f in r['ok']['fields']) + '])'
+    else:
+        st = 'sVE' if r['err'] == 'ValueError' else f'(SErr "{r["err"]}")'
+    r = res['atom']
+    if 'ok' in r:
+        z = r['ok']['z']
+        if not isinstance(z, int) or isinstance(z, bool):
+            raise ValueError(f'z is not an int: {z!r}')
+        at = f'(AOk {cstr(r["ok"]["isotope"])} ({z})%Z {obs_term(r["ok"]["weight"])} {obs_term(r["ok"]["mass"])})'
+    else:
+        at = {'ValueError': 'aVE', 'TypeError': 'aTE'}.get(r['err'], f'(AErr "{r["err"]}")')
+    e = res.get('elem', {'unavailable': True})
+    if 'unavailable' in e or 'err' in e:
+        et = 'ESkip'
+    else:
+        et = 'eN' if e['group'] is None else f'(EGroup (Some {cstr(e["group"])}))'
+    return f'(L {cstr(name)} {a} {st} {at} {et})'
 
 
 def run_lookups(ctx, names, apis=('scat', 'atom', 'elem')):
@@ -270,53 +272,59 @@ def lookup_correspondence(ctx, rng):
     terms, descs = [], []
     n_type_error = 0
     counts = {}
+    elem_unavailable = False
     for i, (name, res) in enumerate(zip(names, results)):
         kind, origin = meta[name]
         is_ascii = all(ord(c) < 128 for c in name)
         try:
-            cts = case_terms(name, res, is_ascii)
+            t = case_term(name, res, is_ascii)
         except ValueError as ex:
             ctx.violation(f'lookup:{kind}:unrepresentable-result',
                           f'lookup of {name!r} returned something that is not a finite scalar quantity: {ex}',
                           {'name': name, 'kind': kind, 'derived_from': origin, 'impl': res})
             continue
-        for api, t in cts:
-            terms.append(t)
-            descs.append({'api': api, 'name': name, 'kind': kind, 'derived_from': origin, 'repeat': i >= len(order),
-                          'impl': describe_impl(res[api])})
-            counts[(api, kind)] = counts.get((api, kind), 0) + 1
+        terms.append(t)
+        descs.append({'name': name, 'kind': kind, 'derived_from': origin, 'repeat': i >= len(order),
+                      'impl': {api: describe_impl(res.get(api)) for api in ('scat', 'atom', 'elem')}})
+        if 'unavailable' in res.get('elem', {}):
+            elem_unavailable = True
+        counts[kind] = counts.get(kind, 0) + 1
         if res.get('atom', {}).get('err') == 'TypeError':
             n_type_error += 1
     fails, errors = ctx.coq_eval_shards(units_header(units), terms,
                                         lambda k: 'Eval vm_compute in (report (map (check_lookup UT) cases)).\n',
                                         shard=1000, prefix='lookup', timeout=1500)
-    print(f'[C20] Coq compared {len(terms)} lookup observations in {time.time() - t0:.1f}s (incl. implementation)')
+    print(f'[C20] Coq compared {3 * len(terms)} lookup observations in {time.time() - t0:.1f}s (incl. implementation)')
     for nm, e in errors:
         ctx.violation('corr-shard-error', f'correspondence shard {nm} did not evaluate: {e[:300]}',
                       {'shard': nm, 'error': e}, found_input=False)
     for i, why in sorted(fails.items()):
         d = descs[i]
+        api, _, why = why.partition('|')
         cls = re.sub(r'field\d+-', 'field-', why).split(':')[0]
-        key = f'{d["api"]}:{d["kind"]}:{cls}'
+        key = f'{api}:{d["kind"]}:{cls}'
         fld = re.match(r'field(\d+)-', why)
         extra = f' (field {FIELDS[int(fld.group(1))]})' if fld and int(fld.group(1)) < len(FIELDS) else ''
         api_name = {'scat': 'ScatteringParams.for_isotope', 'atom': 'Atom.for_isotope',
-                    'elem': '_parse_isotope_name'}[d['api']]
+                    'elem': '_parse_isotope_name'}.get(api, api)
         ctx.violation(key, f'{api_name}({d["name"]!r}) [{d["kind"]}'
                       + (f' of {d["derived_from"]!r}' if d['derived_from'] and d['kind'] != 'exact' else '')
-                      + f'] disagrees with the table model: {why}{extra}; implementation: {d["impl"]}',
-                      {'api': d['api'], 'name': d['name'], 'kind': d['kind'], 'derived_from': d['derived_from'],
-                       'reason': why, 'impl': d['impl'],
+                      + f'] disagrees with the table model: {why}{extra}; implementation: {d["impl"].get(api)}',
+                      {'api': api, 'name': d['name'], 'kind': d['kind'], 'derived_from': d['derived_from'],
+                       'reason': why, 'impl': d['impl'].get(api),
                        'required': 'the fields of the table row whose first field is exactly the name '
                                    '(value == float(field), variance == float(std)**2, unit, None where blank); '
                                    'rejection (an exception) for any other name'})
-    distinct = len({(d['api'], d['name']) for d in descs if not d['repeat']})
+    if elem_unavailable:
+        ctx.note('_parse_isotope_name is not available in this tree; its direct comparison was skipped')
+    n_api = 2 if elem_unavailable else 3
+    distinct = n_api * len({d['name'] for d in descs if not d['repeat']})
     n_rows = {t: len(tabs[t]) for t in tabs}
     samples = [d for d in descs if d['kind'] == 'exact'][:2] + [d for d in descs if d['kind'] == 'prefix'][:1] \
         + [d for d in descs if d['kind'] == 'comma'][:1] + [d for d in descs if d['kind'] == 'unicode'][:1]
     return {
-        'evaluations': len(terms), 'distinct': distinct, 'rows': n_rows, 'samples': samples,
-        'per_api_kind': {f'{a}:{k}': v for (a, k), v in sorted(counts.items())},
+        'evaluations': n_api * len(terms), 'distinct': distinct, 'rows': n_rows, 'samples': samples,
+        'names_per_kind': dict(sorted(counts.items())),
         'disagreements': len(fails), 'type_error_rejections': n_type_error,
         'distinct_names': len(order), 'repeated_queries': len(repeats), 'scipp_version': scipp_version,
         'units': {u: {'name': i['name'], 'multiplier': kcorr.fmt(i['mult']), 'dims': i['dims']} for u, i in units.items()},
@@ -421,7 +429,7 @@ def correspondence(ctx):
         'distinct_nontrivial': lk['distinct'] + at['distinct_nontrivial'],
         'exhaustive': True,
         'rule': 'lookups: EVERY row of the three tables (first-column names of the current CSV files) and, for EVERY real '
-                'name, its near misses (prefix, drop-first, suffixes, case flips, leading/trailing blank/newline/tab, leading '
+                'name, near misses (quick tier: all ~15 variants for scattering/element names, a seeded 5 of 15 per isotope-mass name; thorough: all) (prefix, drop-first, suffixes, case flips, leading/trailing blank/newline/tab, leading '
                 'zero, trailing comma, comma+field; a seeded sample with non-ASCII look-alikes) through Atom.for_isotope, '
                 'ScatteringParams.for_isotope and _parse_isotope_name, in shuffled order, plus repeated queries (lru_cache); '
                 'distinct = distinct (api, name) pairs, all non-trivial (a table name returning data or a near miss that '
